@@ -846,6 +846,21 @@ fn run_history(history: &[Action], tally: &Tally) -> Result<String, Failure> {
     }
     let pre = observe(&ws);
     let outcome = execute(&mut ws, &last[0], prefix.len() as i64).map_err(|mut f| {
+        if last[0] == Action::Snapshot && f.signature == "C27/snapshot/panic" && f.message.contains("assertion `left == right` failed") {
+            // jj's own debug assertion "recorded file states == tree paths inside the patterns"
+            let stale: Vec<&String> = pre
+                .states
+                .keys()
+                .filter(|p| !in_patterns(&pre.patterns, p) || !pre.tree.contains_key(*p))
+                .collect();
+            if !stale.is_empty() {
+                f.signature = "C27/snapshot/panic/stale-file-state-after-skipped-removal".into();
+                f.message = format!(
+                    "{} — before the snapshot jj had file states for {stale:?}, which are outside the patterns {:?} or not in                      the tree (left behind by an update that skipped their removal)",
+                    f.message, pre.patterns
+                );
+            }
+        }
         if let Action::SetSparse(new_patterns) = &last[0]
             && f.signature == "C27/set-sparse/panic"
         {
